@@ -239,6 +239,16 @@ theorem C02_app_tags_source :
   intro n v
   cases n <;> rfl
 
+/-- … and the numbers that travel as ENUMERATED values: the discriminants of `Scope` and `DerefAliases`
+(`scope as i64`, `opts.deref as i64`) and the operation number `fn modify` writes for each `Mod` variant, as they stand in
+the source today, are the model's `Scope.toInt`, `Deref.toInt` and `ModKind.toInt`. -/
+theorem C02_enum_values_source :
+    Gen.enum_Scope = [("Base", Scope.base.toInt), ("OneLevel", Scope.oneLevel.toInt), ("Subtree", Scope.subtree.toInt)] ∧
+    Gen.enum_DerefAliases = [("Never", Deref.never.toInt), ("Searching", Deref.searching.toInt),
+      ("Finding", Deref.finding.toInt), ("Always", Deref.always.toInt)] ∧
+    Gen.modNums = [("Add", ModKind.add.toInt), ("Delete", ModKind.delete.toInt), ("Replace", ModKind.replace.toInt),
+      ("Increment", ModKind.increment.toInt)] := by decide
+
 example : rootForm (build (.delete [0x78])) = (1, 10, false) ∧ rootForm (build (.add [0x78] [])) = (1, 8, true) := by
   decide
 
